@@ -130,11 +130,16 @@ impl notify::EventHandler for NotifyEventHandler {
 
                 for path in event.paths {
                     let paths = match event.kind {
+                        // Creating or renaming an entry also changes the
+                        // content of its directory.
+                        notify::EventKind::Create(_)
+                        | notify::EventKind::Modify(notify::event::ModifyKind::Name(_)) => {
+                            match path.parent() {
+                                Some(parent) => vec![&path, parent],
+                                None => vec![&*path],
+                            }
+                        }
                         notify::EventKind::Any | notify::EventKind::Modify(_) => vec![&*path],
-                        notify::EventKind::Create(_) => match path.parent() {
-                            Some(parent) => vec![&path, parent],
-                            None => vec![&*path],
-                        },
                         notify::EventKind::Remove(_) => match path.parent() {
                             Some(parent) => vec![parent],
                             None => vec![],
